@@ -3,7 +3,7 @@
    (I (x) M (x) I), and the entrywise comparison with the matrix extracted from
    the implementation by unit vectors. *)
 From Coq Require Import QArith Qcanon ZArith List Qround.
-From PV Require Import Dict Vec Dot Mat QcInst GaussQc Check IndexOps Conv InterpOps.
+From PV Require Import Dict Vec Dot Mat QcInst GaussQc Check IndexOps Conv InterpOps ConvND BilinearOp.
 Import ListNotations.
 
 Section SpecM.
@@ -57,6 +57,10 @@ Definition conv3_specM (dims : list nat) (h : list (list (list R))) (offs : list
 Fixpoint rpow (a : R) (k : nat) : R := match k with O => r1 R | S k' => rmul R a (rpow a k') end.
 Definition vander (t : vec) (order : nat) : mat := map (fun ti => map (rpow ti) (seq 0 (S order))) t.
 Definition smooth_h (ns : nat) (inv : R) : vec := repeat inv ns.
+(* matrix of an executable model: column j = f (e_j); m rows *)
+Definition modelM (m n : nat) (f : vec -> vec) : mat :=
+  let cols := map (fun j => f (unit R n j)) (seq 0 n) in
+  map (fun i => map (fun c => nth i c (r0 R)) cols) (seq 0 m).
 End SpecM.
 
 (* ---- interpolation positions -> (floor, weight), on Qc ---- *)
@@ -96,16 +100,29 @@ Fixpoint fd_mat {A} (f : A -> A -> bool) (i : nat) (U V : list (list A)) : optio
   | _, _ => Some (i, 0%nat)
   end.
 
-Record caseR := { kr_id : nat; kr_spec : list (list Qc); kr_A : list (list Qc); kr_B : list (list Qc) }.
-Record caseC := { kc_id : nat; kc_spec : list (list G); kc_A : list (list G); kc_B : list (list G) }.
-(* codes: [1; i; j] forward matrix differs from the documented matrix at (i, j)
-          [2; i; j] adjoint matrix differs from its conjugate transpose at (i, j) *)
+Record caseR := { kr_id : nat; kr_spec : list (list Qc); kr_A : list (list Qc); kr_B : list (list Qc);
+  kr_mf : option (list Qc -> list Qc); kr_ma : option (list Qc -> list Qc) }.
+Record caseC := { kc_id : nat; kc_spec : list (list G); kc_A : list (list G); kc_B : list (list G);
+  kc_mf : option (list G -> list G); kc_ma : option (list G -> list G) }.
+(* codes (triples): [1; i; j] forward matrix differs from the documented matrix at (i, j)
+                    [2; i; j] adjoint matrix differs from its conjugate transpose at (i, j)
+                    [3; i; j] forward matrix differs from the executable code-shaped model on e_j
+                    [4; i; j] adjoint matrix differs from the executable adjoint model on e_j *)
 Definition code_of (c : nat) (o : option (nat * nat)) : list nat :=
   match o with None => [] | Some (i, j) => [c; i; j] end.
 Definition ncols {A} (M : list (list A)) : nat := match M with [] => 0%nat | r :: _ => length r end.
 Definition chkR (tol : Qc) (c : caseR) : list nat :=
+  let m := length (kr_spec c) in let n := ncols (kr_spec c) in
   code_of 1 (fd_mat (close tol) 0 (kr_A c) (kr_spec c)) ++
-  code_of 2 (fd_mat (close tol) 0 (kr_B c) (ctranspose QcS (ncols (kr_spec c)) (kr_spec c))).
+  code_of 2 (fd_mat (close tol) 0 (kr_B c) (ctranspose QcS n (kr_spec c))) ++
+  match kr_mf c with None => [] | Some f => code_of 3 (fd_mat (close tol) 0 (kr_A c) (modelM QcR m n f)) end ++
+  match kr_ma c with None => [] | Some g => code_of 4 (fd_mat (close tol) 0 (kr_B c) (modelM QcR n m g)) end.
 Definition chkC (tol : Qc) (c : caseC) : list nat :=
+  let m := length (kc_spec c) in let n := ncols (kc_spec c) in
   code_of 1 (fd_mat (gcl tol) 0 (kc_A c) (kc_spec c)) ++
-  code_of 2 (fd_mat (gcl tol) 0 (kc_B c) (ctranspose GS (ncols (kc_spec c)) (kc_spec c))).
+  code_of 2 (fd_mat (gcl tol) 0 (kc_B c) (ctranspose GS n (kc_spec c))) ++
+  match kc_mf c with None => [] | Some f => code_of 3 (fd_mat (gcl tol) 0 (kc_A c) (modelM GR m n f)) end ++
+  match kc_ma c with None => [] | Some g => code_of 4 (fd_mat (gcl tol) 0 (kc_B c) (modelM GR n m g)) end.
+(* positions -> floor indices / weights for the executable Interp / Bilinear models *)
+Definition interp_ls (n : nat) (pos : list Qc) : list nat := map pfloor (map (interp_pos n) pos).
+Definition interp_ws (n : nat) (pos : list Qc) : list Qc := map pweight (map (interp_pos n) pos).
